@@ -53,7 +53,7 @@ func init() { register("preamble", &preambleEngine{}) }
 
 var preSources = []string{
 	"(f $x)", "$x", "[$x $y]", "{:a $x :b [$y $x]}", "'($x \"$x\" $NUMBER)", "(do ; $x in a comment\n $x)", "(str \"$x is\" $x)",
-	"¬$x¬", "(quote $a-b_1)", "(f $missing)", "(f $x) ; trailing $y", "`(~$x ~@$y)", "#{:a}", "(+ 1 2)", "($x)", "(let [a $x] (g a $NUMBER))",
+	"¬$x¬", "(quote $a-b_1)", "(f $missing)", "(f $x) ; trailing $y", "`(~$x ~@$y)", "#{:a}", "(+ 1 2)", "($x)", "(let [a $x] (g a $NUMBER))", "(list $MODULE $x)", "(def cfg (quote $MODULE))", "[$0 $MODULE]",
 	// sources that BEGIN with comments spelled like preamble lines: they are comments of the program, whatever the table holds
 	";; $x 10\n;; $y \"default\"\n(list $x $y)", ";; $NUMBER 10\n(f $NUMBER)", ";; $x\n$x", ";; $missing (1 2)\n\n(f $missing $x)", "\n;; $x 1\n$x", ";; $x 1",
 }
